@@ -23,6 +23,10 @@ Fixpoint d_expr (fuel : nat) (s : sexp) : expr :=
     | A 3%Z :: n :: ps :: _ => ETag (d_str n) (map d (d_items ps))
     | A 4%Z :: u :: e :: ps :: _ => EHRef (d_str u) (d_bool e) (map d (d_items ps))
     | A 5%Z :: ps :: _ => EProt (map d (d_items ps))
+    (* 7 / 8: HRef / Tag whose url / name is passed as a String or Text object (mode says which);
+       HRef.__init__ and Tag.__init__ take str(url) / str(name), so the model sees the same call *)
+    | A 7%Z :: _ :: u :: e :: ps :: _ => EHRef (d_str u) (d_bool e) (map d (d_items ps))
+    | A 8%Z :: _ :: n :: ps :: _ => ETag (d_str n) (map d (d_items ps))
     | A 10%Z :: e :: _ => EUpper (d e)
     | A 11%Z :: e :: _ => ELower (d e)
     | A 12%Z :: e :: _ => ECapitalize (d e)
